@@ -140,6 +140,7 @@ fn one_execution(pr: Params, fails: &[Sym], ch: &mut Chooser) -> RunOut {
                 request_timeout: None,
                 history_listener: Some(listener.clone()),
                 targets: (0..pr.p).map(|t| pr.mask >> t & 1 == 0).collect(),
+                pool_errors: vec![],
             };
             let atts: Rc<RefCell<Vec<Att>>> = Rc::new(RefCell::new(Vec::new()));
             let atts2 = atts.clone();
